@@ -134,6 +134,13 @@ def binopTy (op : BinOp) (l r : Ty) : Option Ty :=
     if isNumeric l && isNumeric r && compat l r then some (meet l r) else none
   | .mod => if isInt l && isInt r && compat l r then some (meet l r) else none
 
+/-- does `l op r` certainly diverge, given that `l` / `r` do? `&&` and `||`
+    short-circuit: the right operand may not be evaluated at all. -/
+def binDiv (op : BinOp) (dl dr : Bool) : Bool :=
+  match op with
+  | .and | .or => dl
+  | _ => dl || dr
+
 def negTy (t : Ty) : Option Ty :=
   if isNegatable t then
     some (match t with | .anyInt _ => .anyInt true | t => t)
@@ -378,7 +385,7 @@ def synth (env : Env) (ctx : Ctx) (g : Gamma) : Expr → R TD
     let (tl, dl) ← synth env ctx g l
     let (tr, dr) ← synth env ctx g r
     match binopTy op tl tr with
-    | some t => pure (t, dl || dr)
+    | some t => pure (t, binDiv op dl dr)
     | none => fail "operand"
   | .ite c t e => do
     let (tc, dc) ← synth env ctx g c
